@@ -236,7 +236,7 @@ def parseTz (s : Text) : Option Int × Text :=
       | none => (none, s)
     else (none, s)
 
-/-- the `second` group after fix 83b2cb3 – date_time.py:202-213: `(second, microsecond)` -/
+/-- the `second` group after fix 83b2cb3 – date_time.py:202-211: `(second, microsecond)` -/
 def parseSecond (v : Text) : Option (Nat × Nat) :=
   if v.contains '.' then
     let whole := v.takeWhile (· != '.')
@@ -255,7 +255,7 @@ def parseSecTz (s : Text) : Option (Nat × Nat × Option Int) :=
   if !atEnd s2 then none else
   (parseSecond run).map (fun (sec, us) => (sec, us, off))
 
-/-- date-time branch of `from_isodatetime` – date_time.py:42-46, 193-215 -/
+/-- date-time branch of `from_isodatetime` – date_time.py:42-46, 193-214 -/
 def parseDateTime (s : Text) : Option DateTime :=
   (field '-' s).bind fun (year, s) =>
   (field '-' s).bind fun (month, s) =>
@@ -274,7 +274,7 @@ inductive IsoValue where
   | other                        -- the `strptime` fall-backs (no `T` in the text): not modelled
 deriving DecidableEq, Repr
 
-/-- `from_isodatetime` – date_time.py:163-218; outer `none` = `ValueError` -/
+/-- `from_isodatetime` – date_time.py:163-221; outer `none` = `ValueError` -/
 def fromIsoDateTime (s : Text) : Option IsoValue :=
   if s = [] then some .nothing
   else if s.head? = some 'P' then (parseDuration s).map .duration
@@ -298,26 +298,26 @@ def DateTime.instant (d : DateTime) : Int :=
   (((daysFromCivil d.year d.month d.day * 24 + d.hour) * 60 + d.minute - d.offset.getD 0) * 60
     + d.second) * 1000000 + d.micro
 
-/-! ## tick conversions – date_time.py:231-267 (timedelta = `Int` microseconds) -/
+/-! ## tick conversions – date_time.py:234-270 (timedelta = `Int` microseconds) -/
 
 def tdDays (us : Int) : Int := Int.fdiv us 86400000000
 def tdSeconds (us : Int) : Int := Int.fdiv (Int.fmod us 86400000000) 1000000
 def tdMicros (us : Int) : Int := Int.fmod us 1000000
 
-/-- `timecode_to_timedelta` – lines 253-258 -/
+/-- `timecode_to_timedelta` – lines 256-261 -/
 def timecodeToTimedelta (timecode timescale : Int) : Int :=
   Int.fdiv (timecode * 1000000) timescale
 
-/-- `timedelta_to_timecode` – lines 260-267 -/
+/-- `timedelta_to_timecode` – lines 263-270 -/
 def timedeltaToTimecode (delta timescale : Int) : Int :=
   timescale * tdDays delta * 86400 + timescale * tdSeconds delta
     + Int.fdiv (timescale * tdMicros delta) 1000000
 
-/-- `multiply_timedelta` – lines 231-240 -/
+/-- `multiply_timedelta` – lines 234-243 -/
 def multiplyTimedelta (delta num : Int) : Int :=
   num * tdSeconds delta + num * tdDays delta * 86400 + Int.fdiv (num * tdMicros delta) 1000000
 
-/-- `scale_timedelta` – lines 242-251: the numerator (an integer-valued float in
+/-- `scale_timedelta` – lines 245-254: the numerator (an integer-valued float in
 Python); the function returns `numerator / float(denom)` -/
 def scaleTimedeltaNumer (delta num : Int) : Int := multiplyTimedelta delta num
 
